@@ -520,7 +520,7 @@ fn native_case(n: u32, seed: u64) -> Option<(String, String, Value)> {
 pub fn case(batch: &str, tier: &str, i: u64) -> CaseOut {
     let vs = verif_seed();
     if batch == "machine" {
-        let plan = machine_plan(tier == "quick");
+        let plan = machine_plan(tier.starts_with("quick"));
         let n = plan[i as usize % plan.len()];
         let seed = run_seed(vs, "C16", "machine", i);
         let (board, ranges) = machine_inputs(seed);
@@ -554,7 +554,7 @@ pub fn case(batch: &str, tier: &str, i: u64) -> CaseOut {
         return out;
     }
     if batch == "native" {
-        let plan = native_plan(tier == "quick");
+        let plan = native_plan(tier.starts_with("quick"));
         let n = plan[i as usize % plan.len()];
         let seed = run_seed(vs, "C16", "native", i);
         let mut out = CaseOut { index: i, seed, evals: 1, ..Default::default() };
@@ -565,7 +565,7 @@ pub fn case(batch: &str, tier: &str, i: u64) -> CaseOut {
         out.violation = native_case(n, seed);
         return out;
     }
-    let plan = cons_plan(vs, tier == "quick");
+    let plan = cons_plan(vs, tier.starts_with("quick"));
     let (n, faults_on) = plan[i as usize % plan.len()];
     let seed = run_seed(vs, "C16", if faults_on { "cons-f" } else { "cons" }, i);
     let mut out = CaseOut { index: i, seed, ..Default::default() };
@@ -859,6 +859,36 @@ pub fn run(tier: &str) -> i32 {
             }
         }
     }
+    // a reduced conservation batch by the dev-profile binary
+    {
+        let n_dev: u64 = if quick { 48 } else { 600 };
+        let tdev = format!("{tier}/dev");
+        let chunks = run_batch("C16", "cons", n_dev, chunk, &tdev, true);
+        for (ci, ch) in chunks.iter().enumerate() {
+            let chunk_first = ci as u64 * chunk;
+            if let Some((i, how)) = &ch.died {
+                ev.violations.push(Violation {
+                    property: "C16".into(),
+                    oracle: "process_died".into(),
+                    key: format!("dev:process_died:history:cons:{chunk_first}..={i}"),
+                    detail: format!("[dev profile] the process simulating the workers ended with {how} at case {i}"),
+                    seed: vs,
+                    replay: json!({"kind":"chunk","batch":"cons","first":chunk_first,"upto":i,"tier":tdev,"profile":"dev","expected_oracle":"process_died"}),
+                });
+            }
+            for c in &ch.cases {
+                ev.merge_case(c);
+                ev.fault("profile_dev", c.evals);
+                logfold.add(c.log);
+                if c.violation.is_some() && ev.violations.iter().filter(|v| !v.oracle.starts_with("tiling")).count() < 3 {
+                    let mut v = settle_violation("C16", "cons", &tdev, true, chunk_first, c, &minimise_json, &key_json);
+                    v.detail = format!("[dev profile] n={}: {}", v.replay["n"].as_u64().unwrap_or(0), v.detail);
+                    v.key = format!("dev:{}", v.key);
+                    ev.violations.push(v);
+                }
+            }
+        }
+    }
     // the real example binaries on simulated machines (LD_PRELOAD CPU-count shim)
     {
         let nm = machine_plan(quick).len() as u64;
@@ -923,7 +953,10 @@ pub fn replay(v: &Value) -> Option<(String, String)> {
     match r["kind"].as_str().unwrap_or("") {
         "chunk" => replay_chunk("C16", r),
         "c16_tiling" => eval(r).map(|(k, d)| (format!("{k}:n={}", r["n"].as_u64().unwrap_or(0)), d)),
-        "c16_conservation" | "c16_native" | "c16_machine" => eval_in_child("C16", r, false).map(|(k, d)| (key_json(&k, r), d)),
+        "c16_conservation" | "c16_native" | "c16_machine" => {
+            let dev = r["profile"].as_str() == Some("dev");
+            eval_in_child("C16", r, dev).map(|(k, d)| (format!("{}{}", if dev { "dev:" } else { "" }, key_json(&k, r)), d))
+        }
         _ => None,
     }
 }
